@@ -249,7 +249,11 @@ def generate_dependent_dispatch(tup, handlers, next_call, slf, name, err, nerr):
 
     body = []
     if keyexpr:
-        body.append(f"HANDLER = {ndb[keyed]}.get({keyexpr}, FALLTHROUGH)")
+        body.append("try:")
+        body.append(f"    HANDLER = {ndb[keyed]}.get({keyexpr}, FALLTHROUGH)")
+        body.append("except TypeError:")
+        # An unhashable argument is equal to none of the keys
+        body.append("    HANDLER = FALLTHROUGH")
         body.append(f"return HANDLER({slf}{argcall})")
 
     elif exclusive:
